@@ -67,6 +67,12 @@ CHECKS = {
    note='trusted: simulated pubsub transport (copies per subscriber, FIFO per link); the proxy service process itself is not run; Session objects are built without their constructor',
    technique='deterministic simulation: in-memory pubsub network, delivery-count model oracle'),
 
+ 'C20': dict(
+   text='raptor world: real Master, DefaultWorker (request callback, allocator, forked dispatch process + forked call process, result watcher) and Worker dispatchers (function, method, eval, exec, proc, shell) plus the real agent scheduler raptor forwarding; master, worker and every forked request are separate simulated processes with their own os.environ, cwd and stdio; seeded request streams (core/GPU demands, payloads that return, print, raise, change the environment or stdout, sleep on the virtual clock, time out incl. completion == timeout, requests before the master registered) and faults (fork() failing for the dispatch or call process, message delays, stalled threads); oracles: step invariant slot_shared / alloc_shape on every allocation, at quiescence result_count == 1, target_state <=> exit code, routing by mode, (out, err, ret, val, exc) vs. payload truth table, alloc_leak, env_leak, stdio_leak of the worker process. Sampling, not proof.',
+   ref='4 (C20), 9.6',
+   note='trusted: simulator fakes (transport, fork = deep copy with shared IPC objects, per-process environ/cwd/stdio views); master task service (ru.zmq.Server) stubbed; heartbeats not exercised; MPI worker not driven; proc/shell payloads run the real /bin/true, /bin/false, /bin/echo while the calling sim thread holds the baton',
+   technique='deterministic simulation with fault injection: seeded request streams + schedule search, allocation step invariant + result truth-table oracle at quiescence'),
+
  'C09': dict(
    text='full agent world on Slurm node names with a seeded launcher configuration (FORK, MPIRUN +MPT/RSH/CCMRUN/DPLACE, MPIEXEC +MPT with rank file / host file / PALS / -f modes, SRUN old/new, APRUN, IBRUN, SSH, RSH, CCMRUN; >42-host thresholds): the real scheduler chooses slots, the real executor asks the real find_launcher / get_launch_cmds; a spy records command + referenced files; oracle = reference parser (process count, node multiset or node set, rank-file / cpu-bind pins) vs. the slots, command of a fresh launcher instance (history independence), refusal of multi-rank tasks by single-process methods. The history dimension (order in which tasks reach the one launcher object) is decided by the simulated schedule; the input dimension is seeded generation. Sampling, not proof.',
    ref='4 (C09)',
